@@ -72,7 +72,7 @@ def run(tier, replay=None):
     extra = res.get("extra", {})
     law_fail = extra.get("class_law_failures") or []
 
-    mism = {"goify": None, "camel": None, "scope": None}
+    mism = {"goify": None, "camel": None, "scope": None, "types": None}
     if ck.coq_ok:
         hdr = ("From Coq Require Import List NArith.\nFrom Names Require Import Generated_reserved Model Run.\n"
                "Import ListNotations.\nOpen Scope N_scope.\n"
@@ -80,7 +80,8 @@ def run(tier, replay=None):
                + open(os.path.join(ck.work, "classes.txt")).read() + "].")
         for tag, typ, fn in (("goify", "N * str * bool * str", "goify_mismatches tbl"),
                              ("camel", "N * str * bool * bool * str", "camel_mismatches tbl"),
-                             ("scope", "N * list op * list str", "scope_mismatches")):
+                             ("scope", "N * list op * list str", "scope_mismatches"),
+                             ("types", "N * list (bool * ty) * list str", "type_mismatches tbl")):
             if not ck.coq_ok:
                 break
             lines = _lines(os.path.join(ck.work, "cases_%s.txt" % tag))
@@ -97,16 +98,17 @@ def run(tier, replay=None):
                     {"broken": "Model.class_laws / case_laws on the unicode package (checked over every code point)", "detail": law_fail})
     elif total_mism and not ck.violations:
         first = None
-        for tag in ("goify", "camel", "scope"):
+        for tag in ("goify", "camel", "scope", "types"):
             if mism[tag]:
                 first = {"stream": tag, "case_line": _lines(os.path.join(ck.work, "cases_%s.txt" % tag))[mism[tag][0]]}
                 break
-        ck.unproved("correspondence Names.goify / camel_case / run vs codegen.Goify / CamelCase / NameScope broke on %d Goify, %d CamelCase, %d NameScope case(s); "
+        ck.unproved("correspondence Names.goify / camel_case / run vs codegen.Goify / CamelCase / NameScope broke on %d Goify, %d CamelCase, %d NameScope, %d GoTypeName case(s); "
                     "the identifier laws held on every result and every design explored built"
-                    % (len(mism["goify"] or []), len(mism["camel"] or []), len(mism["scope"] or [])),
+                    % (len(mism["goify"] or []), len(mism["camel"] or []), len(mism["scope"] or []), len(mism["types"] or [])),
                     {"broken": "correspondence model(input) = observed (rune-exact)", "first_disagreeing_case": first,
                      "mismatching_goify_cases": (mism["goify"] or [])[:50], "mismatching_camelcase_cases": (mism["camel"] or [])[:50],
-                     "mismatching_scope_cases": (mism["scope"] or [])[:50]})
+                     "mismatching_scope_cases": (mism["scope"] or [])[:50],
+                     "mismatching_type_name_cases": (mism["types"] or [])[:50]})
 
     cov = {"evaluations": res["evaluations"], "distinct_nontrivial": res["distinct_nontrivial"], "rule": res["rule"],
            "samples": res["samples"], "distribution": res["distribution"],
